@@ -28,6 +28,9 @@ def jobs(tier):
                               cost=10 * N * L))
     for N in (1, 2):
         for r in range(N + 1):
+            J.append(dict(harness=('tableau', 'h_measure'), params=dict(N=N, r=r, L=N, goals='born', dtype='uint8'), timeout_s=300, cost=10 * N * N))
+    for N in (1, 2):
+        for r in range(N + 1):
             for ro in range(N):
                 if N == 2 and tier == 'quick' and ro == 0 and r == 0:
                     pass
